@@ -173,6 +173,10 @@ def check_mean_prediction(case):
     from fairlearn.metrics import mean_prediction, selection_rate
 
     yp = case["yp"]
+    if case.get("yp_type") == "int":      # integer- / bool-typed predictions with real weights
+        yp = [int(v) for v in yp]
+    elif case.get("yp_type") == "bool":
+        yp = [bool(int(v) % 2) for v in yp]
     n = len(yp)
     w = case.get("w")
     kind = case.get("kind", "list")
@@ -196,6 +200,8 @@ def check_mean_prediction(case):
         tags.append("nt")
     if w is not None:
         tags.append("weighted")
+        if case.get("yp_type") in ("int", "bool") and any(float(x) != int(x) for x in w):
+            tags.append("int_predictions_real_weights")
     if n == 1:
         tags.append("n1")
     return tags
@@ -245,6 +251,7 @@ def _mp_cases(draw):
         "w": draw(st.one_of(st.none(), st.lists(_weights, min_size=n, max_size=n))),
         "kind": draw(st.sampled_from(["list", "ndarray", "series"])),
         "wkind": draw(st.sampled_from(["list", "ndarray", "series"])),
+        "yp_type": draw(st.sampled_from(["float", "float", "int", "bool"])),
     }
 
 
@@ -279,5 +286,5 @@ SUBS = [
         floors={"nt": 0.3, "single_valued": 0.05, "weighted": 0.2, "n1": 0.02}),
     Sub("rates_exhaustive", check, enumerate=_enumerate, shards=16, exhaustive=True),
     Sub("mean_prediction", check_mean_prediction, strategy=_mp_cases, quick=600, thorough=10000, shards=4,
-        floors={"nt": 0.3, "weighted": 0.2}),
+        floors={"nt": 0.2, "weighted": 0.2, "int_predictions_real_weights": 0.05}),
 ]
